@@ -47,6 +47,8 @@ Sensitivity (tools/mut.py, quick tier, all CAUGHT):
   love1d.py  '(1. + eff_rigidity_general)' -> '(1. - eff_rigidity_general)' in static_love_general -> love(static), l2
   mode_manipulation.py 'order_l=tidal_order_l\n                )\n\n        # Pull' i.e. collapse_modes passing order_l=2
              for every degree                                       -> quick (l = 3)
+  mode_manipulation.py 'n_sig = abs(n_coeff)' -> 'n_sig = n_coeff' (more frequency signatures per frequency: changes only the
+             per-degree Love-number average; equivalent mutant for C10)  -> quick
 """
 import math
 from fractions import Fraction
@@ -251,6 +253,10 @@ def _material(case, g, R, rho):
 
 
 def evaluate(case):
+    return tc.second_opinion('c12_love1d', _evaluate, case)
+
+
+def _evaluate(case):
     if case['kind'] == 'quick':
         return _evaluate_quick(case)
     if case['kind'] == 'solver':
@@ -458,6 +464,10 @@ def _evaluate_solver(case):
 
 
 def warm():
-    from TidalPy.toolbox.quick_tides import quick_tidal_dissipation  # noqa
-    for case in fixed_cases('quick')[:2]:
+    """Single-process cache warm-up (setup.sh): love1d helpers for scalar and array arguments (the mode machinery is
+    warmed by C10)."""
+    fc = fixed_cases('quick')
+    for case in fc[:2] + fc[6:8]:
         evaluate(case)
+    arr = dict(fc[0], pts=[{'log_ml': 1.0, 'log_wtau': 0.0, 'log_freq': -4.4}, {'log_ml': 0.0, 'log_wtau': 1.0, 'log_freq': -5.0}])
+    evaluate(arr)
